@@ -395,36 +395,28 @@ func matchJSONSchema(_ Context, doc bsonkit.Doc, name, _ string, v interface{}) 
 	return nil
 }
 
-func matchAll(_ Context, doc bsonkit.Doc, name, path string, v interface{}) error {
-	return matchUnwind(doc, path, false, true, func(field interface{}) error {
-		// get array
-		array, ok := v.(bson.A)
-		if !ok {
-			return fmt.Errorf("%s: expected array", name)
-		}
+func matchAll(ctx Context, doc bsonkit.Doc, name, path string, v interface{}) error {
+	// get array
+	array, ok := v.(bson.A)
+	if !ok {
+		return fmt.Errorf("%s: expected array", name)
+	}
 
-		// check array
-		if len(array) == 0 {
-			return ErrNotMatched
-		}
+	// check array
+	if len(array) == 0 {
+		return ErrNotMatched
+	}
 
-		// every item must equal the field or, if the field is an array, one
-		// of its elements
-		arr, _ := field.(bson.A)
-		for _, item := range array {
-			ok := bsonkit.Compare(field, item) == 0
-			for _, element := range arr {
-				if bsonkit.Compare(item, element) == 0 {
-					ok = true
-				}
-			}
-			if !ok {
-				return ErrNotMatched
-			}
+	// every item is an independent equality condition on the path: it must
+	// equal the value or, if the value is an array, one of its elements
+	for _, item := range array {
+		err := matchComp(ctx, doc, "$eq", path, item)
+		if err != nil {
+			return err
 		}
+	}
 
-		return nil
-	})
+	return nil
 }
 
 func matchSize(_ Context, doc bsonkit.Doc, name, path string, v interface{}) error {
